@@ -730,6 +730,11 @@ func (vc *VC) run() {
 	if con.HasAssigns {
 		vc.frameObligations(fr, env0, ex.st)
 	}
+	for _, ca := range con.CallInvs {
+		if !vc.callAssertHit[ca] {
+			vc.bindError(ca.Clause, "callsite invariant matches no iterating call to "+ca.Callee+" with a function literal in this function")
+		}
+	}
 	for _, ca := range con.CallAsserts {
 		if !vc.callAssertHit[ca] {
 			// a call-site assertion that matches no call checks nothing
